@@ -338,3 +338,27 @@ func VerifC11RingBuffer() {
 	verifrt.Assert(nilRB.Current() == 0, "nil RingBuffer Current")
 	verifrt.Cover("done")
 }
+
+// VerifC11SortedNew: the constructor on 0..4 (thorough 0..5) arbitrary
+// elements in arbitrary order (duplicates anywhere), then one Delete.
+func VerifC11SortedNew() {
+	ninit := 4
+	if verifrt.Thorough() {
+		ninit = 5
+	}
+	var init []int
+	var m c11Set
+	for j, k := 0, verifrt.Len(ninit); j < k; j++ {
+		v := verifrt.Choice(4)
+		init = append(init, v)
+		m = m.add(v)
+	}
+	set := NewSortedSliceSet(init...)
+	c11CheckSorted(set, m, "SortedSliceSet after New")
+	v := verifrt.Choice(4)
+	set.Delete(v)
+	m = m.del(v)
+	verifrt.Assert(!set.Has(v), "SortedSliceSet: Has(v) after Delete(v)")
+	c11CheckSorted(set, m, "SortedSliceSet after New and Delete")
+	verifrt.Cover("done")
+}
